@@ -24,12 +24,11 @@ L_RedVars == << <<"b", BintD(2)>> >>
 Affine == [c |-> "Bin", op |-> Op0("add"),
            l |-> [c |-> "Bin", op |-> Op0("mul"), l |-> V("z", RealD), r |-> NQ(2, 1)], r |-> NQ(1, 1)]
 L_SubVals == <<
-  NQ(1, 2), NQ(-1, 1),
-  V("z", RealD), V("x", RealD), V("y", RealD),
+  NQ(1, 2),
+  V("z", RealD), V("y", RealD),
   Affine,
   Iota(<<<<"b", 2>>>>, <<>>, 0, -1, 2),
-  Iota(<<<<"c", 2>>>>, <<>>, 0, 1, 1),
-  V("v", R2), Iota(<<>>, <<2>>, 0, 1, -2), Iota(<<<<"b", 2>>>>, <<2>>, 0, 0, 1),
+  V("v", R2), Iota(<<<<"c", 2>>>>, <<2>>, 0, 0, 1),
   N(1, 2), V("c", BintD(2)), TenI(<<<<"c", 2>>>>, <<>>, 2, <<1, 0>>) >>
 L_NewNames == <<"n">>
 =============================================================================
